@@ -12,7 +12,9 @@ Kernels (source function -> generated definitions):
   io/file_buffers.py TextBufferExtractor.__init__ / get_field_by_number
                                                                  gen_field_len, gen_gfbn_first, gen_gfbn_step, gen_gfbn_keep_len
   io/vcf_buffers.py VCFBuffer._get_field_by_number               gen_vcf_shift_col, gen_vcf_shift
-  io/buffers/sam.py SAMBufferExctractor._get_extra_field         gen_sam_extra_start, gen_sam_extra_len
+  io/buffers/sam.py SAMBufferExctractor._get_extra_field         gen_sam_extra_start, gen_sam_extra_end0, gen_sam_extra_probe, gen_sam_extra_end, gen_sam_extra_len
+  io/buffers/sam.py SAMBuffer._get_buffer_extractor / _modify_for_carriage_return
+                                                                 gen_sam_entry_ends_before_cr, gen_sam_last_field, gen_sam_cr_probe, gen_sam_cr_adjust
   io/named_text_buffer.py NamedBufferExtractor.has_field_mask    gen_hfm_line_len, gen_hfm_ignored
   io/named_text_buffer.py NamedBufferExtractor.has_field_name    gen_flag_len_match (Flag keys: item length == key length)
   io/named_text_buffer.py NamedBufferExtractor.get_field_by_name gen_value_start, gen_value_len, gen_value_keep_len
@@ -351,13 +353,56 @@ def gen():
     _emit(defs, 'gen_sam_extra_start', lambda: K02(sam(), {'self._field_starts[:, -1]': 's_last', 'self._field_lens[:, -1]': 'l_last'}).define(
         'gen_sam_extra_start', ['s_last', 'l_last'], 'starts'))
 
-    def sam_len():
+    def sam_ends():
         f = sam()
         c = _call(f, 'self._extract_data')
         if [src_of(a) for a in c.args] != ['lens', 'starts']:
             raise Unsupported('_extract_data arguments changed')
-        return K02(f, {'self._entry_ends': 'entry_end'}).define('gen_sam_extra_len', ['entry_end', 'starts'], 'lens')
-    _emit(defs, 'gen_sam_extra_len', sam_len)
+        a = _assigns(f, 'ends')
+        if len(a) != 2:
+            raise Unsupported('ends is not assigned exactly twice in _get_extra_field')
+        return a
+    _emit(defs, 'gen_sam_extra_end0', lambda: K02(sam(), {'self._entry_ends': 'entry_end'}).define('gen_sam_extra_end0', ['entry_end'], sam_ends()[0].value))
+
+    def sam_end():
+        v = sam_ends()[1].value            # ends - (self._data[np.maximum(ends - 1, 0)] == '\r')
+        if not (isinstance(v, ast.BinOp) and isinstance(v.op, ast.Sub) and isinstance(v.right, ast.Compare)
+                and isinstance(v.right.left, ast.Subscript) and src_of(v.right.left.value) == 'self._data'):
+            raise Unsupported('second assignment to ends changed: %s' % src_of(v))
+        probe = v.right.left.slice
+        k = K02(sam(), {'ends': 'e', src_of(v.right.left): 'c'})
+        return (K02(sam(), {'ends': 'e'}).define('gen_sam_extra_probe', ['e'], probe)
+                + k.define('gen_sam_extra_end', ['e', 'c'], v))
+    _emit(defs, 'gen_sam_extra_probe', sam_end)
+    _emit(defs, 'gen_sam_extra_len', lambda: K02(sam(), {'ends': 'en'}).define('gen_sam_extra_len', ['en', 'starts'], _assign(sam(), 'lens').value))
+
+    # ---- SAMBuffer._get_buffer_extractor / _modify_for_carriage_return (ragged field ends)
+    def sam_gbe_order():
+        f = find_function(tree('bionumpy/io/buffers/sam.py'), 'SAMBuffer._get_buffer_extractor')
+        ee = _assign(f, 'entry_ends')
+        if src_of(ee.value) != 'all_ends[:, -1] + 1':
+            raise Unsupported('entry_ends changed: %s' % src_of(ee.value))
+        cr = _one([n for n in f.body if isinstance(n, ast.Assign) and src_of(n.targets[0]) == 'all_ends'
+                   and isinstance(n.value, ast.Call) and src_of(n.value.func) == 'cls._modify_for_carriage_return'], 'CR adjustment')
+        if [src_of(x) for x in cr.value.args] != ['all_ends', 'data']:
+            raise Unsupported('arguments of _modify_for_carriage_return changed')
+        if src_of(_assign(f, 'common_fields').value) != '11':
+            raise Unsupported('number of mandatory fields changed')
+        return 'Definition gen_sam_entry_ends_before_cr : bool := %s.\n' % ('true' if f.body.index(ee) < f.body.index(cr) else 'false')
+    _emit(defs, 'gen_sam_entry_ends_before_cr', sam_gbe_order)
+    smcr = lambda: find_function(tree('bionumpy/io/buffers/sam.py'), 'SAMBuffer._modify_for_carriage_return')
+    _emit(defs, 'gen_sam_last_field', lambda: K02(smcr(), {'np.cumsum(ends.lengths)': 'cum'}).define('gen_sam_last_field', ['cum'], 'last_field'))
+
+    def sam_cr():
+        f = smcr()
+        a = _augassign(f, 'flat_ends[last_field]', ast.Sub)
+        v = a.value
+        if not (isinstance(v, ast.Compare) and isinstance(v.left, ast.Subscript) and src_of(v.left.value) == 'data'):
+            raise Unsupported('flat_ends[last_field] -= ... is not a comparison on data[...]')
+        k = K02(f, {'flat_ends[last_field]': 'e', src_of(v.left): 'c'})
+        return (K02(f, {'flat_ends[last_field]': 'e'}).define('gen_sam_cr_probe', ['e'], v.left.slice)
+                + k.define('gen_sam_cr_adjust', ['e', 'c'], ast.BinOp(left=a.target, op=ast.Sub(), right=v)))
+    _emit(defs, 'gen_sam_cr_probe', sam_cr)
 
     # ---- NamedBufferExtractor
     NB = 'bionumpy/io/named_text_buffer.py'
